@@ -146,6 +146,9 @@ func checkC18(c c18Case) error {
 	root := scratchDir()
 	defer os.RemoveAll(root)
 	spec := CfgSpec{Dir: "snaps", Filename: "f"}
+	if len(c.Test)%2 == 1 {
+		spec = CfgSpec{Dir: "snaps", PkgLevel: true} // package-level MatchYAML / MatchSnapshot
+	}
 	file := filepath.Join(root, spec.multiPath())
 	filler := func(i int) Call { return Call{API: "snap", Vals: []Val{strVal(fmt.Sprintf("filler %d", i))}} }
 	k := c.Before + 1
@@ -183,6 +186,9 @@ func checkC18(c c18Case) error {
 			return storeYAMLValue(yamlValueOf(string(c.Value)), c.Test)
 		}
 	case "struct":
+		if _, pl := pkgLevelDir(cfg); pl {
+			cfg = CfgSpec{Dir: "snaps", Filename: apiFileBase}.build(root)
+		}
 		cfg.MatchYAML(ft, c.Struct.build(false))
 		e, l := ft.drain()
 		r = callResult{Errors: e, Logs: l, Events: map[string]int{"added": 1}, InputOK: true}
@@ -231,7 +237,11 @@ func checkC18(c c18Case) error {
 	}
 	idx := findEntry(es, id)
 	if idx < 0 || len(es) != c.Before+2+nHuge {
-		return fmt.Errorf("expected %d entries incl. %q, file has %d", c.Before+2+nHuge, id, len(es))
+		tail := es
+		if len(tail) > 3 {
+			tail = tail[len(tail)-3:]
+		}
+		return fmt.Errorf("expected %d entries incl. %q, file has %d; last entries: %s", c.Before+2+nHuge, id, len(es), describeEntries(tail))
 	}
 	body := string(es[idx].Body)
 	switch c.Kind {
@@ -279,6 +289,9 @@ func checkC18(c c18Case) error {
 	case "value":
 		r = Call{API: "yaml", Doc: c.Value, Form: "value"}.invoke(cfg, ft)
 	case "struct":
+		if _, pl := pkgLevelDir(cfg); pl {
+			cfg = CfgSpec{Dir: "snaps", Filename: apiFileBase}.build(root)
+		}
 		cfg.MatchYAML(ft, c.Struct.build(true))
 		e, l := ft.drain()
 		r = callResult{Errors: e, Logs: l}
